@@ -28,6 +28,7 @@ P_C05_LeavesOnlyBySettlement == [][R(A_C05_LeavesOnlyBySettlement)]_<<vars, l>>
 P_C05_FeeIncreaseExact == [][R(A_C05_FeeIncreaseExact)]_<<vars, l>>
 P_C05_CancelBatchRestores == [][R(A_C05_CancelBatchRestores)]_<<vars, l>>
 P_C05_CallSettlement == [][R(A_C05_CallSettlement)]_<<vars, l>>
+P_C05_TimeoutRefundExact == [][R(A_C05_TimeoutRefundExact)]_<<vars, l>>
 P_C05_NoRefundAfterObservedExecution == [][R(A_C05_NoRefundAfterObservedExecution)]_<<vars, l>>
 P_C06_TimeoutOnlyWhenProven == [][R(A_C06_TimeoutOnlyWhenProven)]_<<vars, l>>
 P_C06_NothingBeforeObservation == [][R(A_C06_NothingBeforeObservation)]_<<vars, l>>
